@@ -713,6 +713,36 @@ def rule_r13(repo, run):
     run.floor(R, "format / options parameters of node constructors", n, 12)
 
 
+
+def rule_r15(repo, run):
+    R = run.rule("C14.R15", "a node computes the fields that are about itself with its own options: a helper that reads "
+                            "`self.options` is called on the node whose name (or other attribute) it is given")
+    am = repo.module("ast")
+    # methods of the node classes that read self.options
+    readers = set()
+    for q, fn in am.functions().items():
+        if "." in q and any(isinstance(x, ast.Attribute) and x.attr == "options" and pyflow.is_name(x.value, "self") for x in ast.walk(fn)):
+            readers.add(q.split(".")[-1])
+    n = 0
+    for q, fn in sorted(am.functions().items()):
+        for c in ast.walk(fn):
+            if not (isinstance(c, ast.Call) and isinstance(c.func, ast.Attribute) and c.func.attr in readers and c.args):
+                continue
+            recv = ast.unparse(c.func.value)
+            owners = set()
+            for a in c.args:
+                if isinstance(a, ast.Attribute) and isinstance(a.value, (ast.Name, ast.Attribute)) and a.attr in ("name", "decl"):
+                    owners.add(ast.unparse(a.value))
+            if not owners:
+                continue
+            n += 1
+            run.check(R, "ast.%s:%s(%s)" % (q, c.func.attr, ast.unparse(c.args[0])), owners == {recv},
+                      "`%s` is called on `%s` with an attribute of %s: the helper reads the options of the object it is called on, "
+                      "so an option set on this declaration is ignored for its own name and the parent's is used instead"
+                      % (c.func.attr, recv, sorted(owners)), am.loc(c))
+    run.floor(R, "option-reading helpers called with a node's own attribute", n, 2)
+
+
 def run(repo, run, tier):
     rule_r1(repo, run)
     rule_r2(repo, run)
@@ -727,3 +757,4 @@ def run(repo, run, tier):
     rule_r11(repo, run)
     rule_r12(repo, run)
     rule_r13(repo, run)
+    rule_r15(repo, run)
